@@ -45,11 +45,15 @@ struct St {
 fn in_range(p: &P2) -> bool {
     p.0 >= 0 && p.1 >= 0 && p.0 < 64 && p.1 < 64
 }
+/// the points of an area in row-major order; points whose coordinates would pass i32::MAX do not exist
 fn row_major(a: &R4) -> Vec<P2> {
     let mut v = vec![];
-    for y in 0..a.3 as i32 {
-        for x in 0..a.2 as i32 {
-            v.push((a.0 + x, a.1 + y));
+    for y in 0..a.3 as i64 {
+        for x in 0..a.2 as i64 {
+            let (px, py) = (a.0 as i64 + x, a.1 as i64 + y);
+            if px < i32::MAX as i64 && py < i32::MAX as i64 {
+                v.push((px as i32, py as i32));
+            }
         }
     }
     v
@@ -301,6 +305,9 @@ fn alphabet(tier: Tier) -> Vec<A> {
     v.push(A::Draw(vec![]));
     v.push(A::Solid((62, 62, 3, 3), true));
     v.push(A::Solid((0, 0, 2, 1), false));
+    // an area whose right edge lies beyond i32::MAX (all of its representable points are outside the display)
+    v.push(A::Solid((i32::MAX - 2, 0, 10, 1), true));
+    v.push(A::Contig((3, i32::MAX - 1, 2, 4), 8));
     v.push(A::Contig((62, 0, 2, 2), 3));
     // sticks out on the right: the discarded points are not a suffix of the colour stream
     v.push(A::Contig((63, 0, 2, 2), 4));
